@@ -13,6 +13,7 @@ from wheatley.row_generation.complib_composition_generator import (
     ComplibCompositionGenerator,
     PrivateCompError,
     InvalidCompError,
+    InvalidComplibURLError,
 )
 from wheatley.row_generation.helpers import valid_pn
 
@@ -262,6 +263,8 @@ def json_to_row_generator(json: JSON, logger: logging.Logger) -> RowGenerator:
             logger.warning(f"No field '{name}' in the row generator JSON")
             return None
 
+        if not isinstance(json[name], dict):
+            raise_error(name, f"'{json[name]}' is not a dictionary of call positions")
         call: Dict[int, str] = {}
         for key, value in json[name].items():
             try:
@@ -279,9 +282,15 @@ def json_to_row_generator(json: JSON, logger: logging.Logger) -> RowGenerator:
             stage = int(json["stage"])
         except KeyError as e:
             raise_error("stage", "'stage' is not defined", e)
-        except ValueError as e:
+        except (ValueError, TypeError) as e:
             raise_error("stage", f"'{json['stage']}' is not a valid integer", e)
-        return PlaceNotationGenerator(stage, json["notation"], json_to_call("bob"), json_to_call("single"))
+        if "notation" not in json:
+            raise_error("notation", "'notation' is not defined")
+        bob, single = json_to_call("bob"), json_to_call("single")
+        try:
+            return PlaceNotationGenerator(stage, json["notation"], bob, single)
+        except (ValueError, TypeError, AttributeError, ZeroDivisionError) as e:
+            raise_error("notation", f"Can't make a row generator for these place notations: {e}", e)
 
     if json["type"] == "composition":
         try:
@@ -295,6 +304,8 @@ def json_to_row_generator(json: JSON, logger: logging.Logger) -> RowGenerator:
             raise_error("complib request", "Comp id '{comp_url}' is private", e)
         except InvalidCompError as e:
             raise_error("complib request", "No composition with id '{comp_url}' found", e)
+        except (InvalidComplibURLError, TypeError, AttributeError) as e:
+            raise_error("url", f"'{comp_url}' is not a CompLib composition: {e}", e)
         return row_gen
 
     raise_error("type", f"{json['type']} is not one of 'method' or 'composition'")
